@@ -6,6 +6,7 @@ use std::panic::catch_unwind;
 
 mod statuslist;
 mod jws;
+mod ts;
 mod cred;
 mod did;
 mod iota;
@@ -80,6 +81,7 @@ fn main() {
     "did_syntax" => did::syntax(&cex),
     "credential_validation" => cred::credential_validation(&cex),
     "presentation_validation" => cred::presentation_validation(&cex),
+    "timestamp" => ts::timestamp(&cex),
     "kani" => kani_replay(&cex),
     "selftest" => selftest(),
     _ => Err(format!("unknown scenario {scenario}")),
